@@ -83,7 +83,13 @@ Verdicts(r) ==
             ELSE IF Has(o.rebind, "panic") THEN {V("panic", "rebind " \o r.tpl)}
             ELSE IF Has(o.rebind, "second") /\ o.rebind.second = "ok" THEN {V("error-accepted", "stale bindings after SetParams")}
             ELSE {}
-  IN sv \cup iv \cup rv
+      \* the caller changed its map right after SetParams: the outcome must be that of the values that were bound
+      av == IF ~Has(o, "alias") THEN {}
+            ELSE IF Has(o.alias, "panic") THEN {V("panic", "aliased map " \o r.tpl)}
+            ELSE IF OK(o, "got") /\ OK(o, "alias") THEN (IF NormZ(o.got.ast) = NormZ(o.alias.ast) THEN {} ELSE {V("value-altered", "caller's map changed after SetParams")})
+            ELSE IF OK(o, "got") # OK(o, "alias") THEN {V("value-altered", "caller's map changed after SetParams: outcome differs")}
+            ELSE {}
+  IN sv \cup iv \cup rv \cup av
 
 \* non-trivial: a bound value arrived in an AST; ns / ni / ne count the records on which (S), (I)
 \* and (E) were actually evaluated
